@@ -401,6 +401,8 @@ class Scenario:
                         full = ('<rpc-reply xmlns="%s" message-id="%s"><data>Z\u00fcrich \u2013 caf\u00e9 \U0001F600</data></rpc-reply>' % (BASE, mid)).encode()
                         cut = full.index('\u00fc'.encode()) + 1 if act[2] == 0 else (full.index('\U0001F600'.encode()) + act[2])
                         body = full[:cut]
+                        if act[2] >= 4:     # 4: a stray 0xff in the text; 5: control - the unfinished frame decodes (cut after a complete character)
+                            body = full[:full.index('\u00fc'.encode())] + (b'\xff</da' if act[2] == 4 else '\u00fcri'.encode())
                         sock.inb.append((b'\n#%d\n' % len(full) + body) if base11 else body)
                         S.effect('srv', act); continue
                 elif k == 'wait_all':
